@@ -27,10 +27,6 @@ expect_sized_integerlike = Fn(FE, "expect_sized_integerlike", impl="Value", slot
                        C("the_number_and_its_size", "res is Ok ==> res->Ok_0.0 == num_of(*self) && num_of(*self).size == Some(res->Ok_0.1)", ["C05"])],
     rewrites=[Rewrite("self.coallesce_to_integer().get_bigint()", "verif_coalesced_bigint(self)", rule="R16",
                       why="`coallesce_to_integer()` returns a std::borrow::Cow (no vstd support) -> prelude wrapper for the chain; ASSUMED: the integer of an integer or of a string, None otherwise")])
-convert_le = Fn(FBI, "convert_le", impl="BigInt", slot="util", mode="stub", ret="res", key="BigInt::convert_le",
-    requires=[C("sized", "self.size is Some")],
-    ensures=[C("bytes_swapped", "self.size->0 % 8 == 0 ==> crate::expr::le_swapped(*self, res)")])
-
 msg_error_span = Fn(RF, "error_span", impl="Message", slot="diagn", mode="stub", ret="res", key="Message::error_span", ensures=[])
 wrap_capped = Fn(RF, "wrap_in_parents_capped", impl="Report", slot="diagn", mode="stub", ret="res", key="Report::wrap_in_parents_capped", ensures=[])
 make_string = Fn(FE, "make_string", impl="Value", slot="expr", mode="stub", ret="res", key="Value::make_string",
@@ -50,7 +46,7 @@ strlen = Fn(F, "eval_builtin_strlen", slot="expr", ret="res", key="eval_builtin_
 le = Fn(F, "eval_builtin_le", slot="expr", ret="res", key="eval_builtin_le", props=["C05", "C03"],
     ensures=QL + [
         C("the_bytes_in_the_opposite_order", "res is Ok ==> old(query).args@.len() == 1 && %s is Integer && %s->Integer_0.size is Some && %s->Integer_0.size->0 %% 8 == 0"
-          " && res->Ok_0 is Integer && le_swapped(%s->Integer_0, res->Ok_0->Integer_0)" % (ARG0, ARG0, ARG0, ARG0), ["C05"]),
+          " && res->Ok_0 is Integer && (%s->Integer_0.fits_size() ==> util::le_swapped(%s->Integer_0, res->Ok_0->Integer_0))" % (ARG0, ARG0, ARG0, ARG0, ARG0), ["C05"]),
         C("a_size_that_is_not_whole_bytes_is_an_error", "old(query).args@.len() == 1 && %s is Integer && %s->Integer_0.size is Some && %s->Integer_0.size->0 %% 8 != 0 ==> res is Err" % (ARG0, ARG0, ARG0), ["C05"]),
     ])
 assert_ = Fn(F, "eval_builtin_assert", slot="expr", ret="res", key="eval_builtin_assert", props=["C05", "C03"],
@@ -67,7 +63,7 @@ UNIT = Unit(
     "U-builtin", "u_eval/skeleton.rs",
     items=BASE + [
         uef.ensure_arg_number.as_stub("expr"), ui.ensure_min_max.as_stub("expr"), ui.expect_string.as_stub("expr"),
-        ur.expect_bigint_v.as_stub("expr"), expect_bool, expect_sized_bigint, expect_sized_integerlike, convert_le, msg_error_span, wrap_capped, make_string,
+        ur.expect_bigint_v.as_stub("expr"), expect_bool, expect_sized_bigint, expect_sized_integerlike, msg_error_span, wrap_capped, make_string,
         sizeof, strlen, le, assert_, encoding,
     ],
     serves=["C05", "C03"],
